@@ -5,6 +5,7 @@
 (*   C05  a signing nonce pair (DE) is used at most once, taken from the   *)
 (*        head of the member's queue, in registration order; queue bound;  *)
 (*        only active members with a queued pair sit on a committee;       *)
+(*        a failed / rolled-back creation leaves nothing behind;           *)
 (*   C10  every signing terminates (SUCCESS | FALLEN), attempts are timed  *)
 (*        out exactly after the signing period, exactly the idle members   *)
 (*        are penalised, the owner is notified once, interim data goes.    *)
@@ -12,28 +13,35 @@
 (* One action per entry point of the real code:                            *)
 (*   SubmitDEs        x/tss msg_server.SubmitDEs -> EnqueueDEs             *)
 (*   ResetDE          x/tss msg_server.ResetDE   -> ResetDE                *)
-(*   RequestOK/Rej    x/bandtss msg_server.RequestSignature ->             *)
-(*                    createSigningRequest -> tss.RequestSigning ->        *)
-(*                    InitiateNewSigningRound -> AssignMembersForSigning   *)
+(*   RequestOK/Rej    a signing request inside a block: bandtss            *)
+(*                    MsgRequestSignature or tunnel MsgTriggerTunnel ->    *)
+(*                    bandtss createSigningRequest -> tss.RequestSigning   *)
+(*                    on the current group -> InitiateNewSigningRound ->   *)
+(*                    AssignMembersForSigning; then, while a group         *)
+(*                    transition awaits execution, best effort (cache      *)
+(*                    context) the same on the incoming group              *)
 (*   RequestRollback  the same message followed, in the same transaction,  *)
 (*                    by a message that fails: everything is undone        *)
 (*   SubmitSig        x/tss msg_server.SubmitSignature                     *)
 (*   Activate         x/bandtss msg_server.Activate -> ActivateMember      *)
-(*   EndBlock         (x/oracle end-blocker: resolved requests with a TSS  *)
-(*                    encoder create signings in a cache context), then    *)
-(*                    x/tss abci.EndBlocker -> HandleSigningEndBlock:      *)
-(*                    aggregate pending, HandleExpiredSignings (FIFO),     *)
-(*                    retries each in a cache context / HandleFailedSigning*)
-(*                    followed by the header of the next block             *)
+(*   Transition       bandtss MsgTransitionGroup (authority) + the key     *)
+(*                    generation of the incoming group reaching round 3    *)
+(*   EndBlock         app.EndBlocker in module order: oracle (resolved     *)
+(*                    requests with a TSS encoder create signings), tss    *)
+(*                    (pending groups: the hand-over signing of a group    *)
+(*                    transition; then HandleSigningEndBlock: aggregate,   *)
+(*                    expirations FIFO, retries / HandleFailedSigning),    *)
+(*                    bandtss, ..., tunnel (packets of TSS-route tunnels   *)
+(*                    create signings); then the header of the next block  *)
 (* Inputs the code must refuse are actions too (outcome "rej", state       *)
 (* unchanged).  `out`, `pen`, `ret` describe the last step only.           *)
 (***************************************************************************)
 EXTENDS Integers, Sequences, FiniteSets, TLC
 
 CONSTANTS
-    Member,     \* members of the (current bandtss) signing group
-    Stranger,   \* addresses outside the group (may still send any message)
-    TSet,       \* possible group thresholds (= committee size)
+    Member,     \* the accounts that are members of the current group (and of the incoming group of a transition)
+    Stranger,   \* addresses outside the groups (may still send any message)
+    TSet,       \* possible group thresholds (= committee size; the incoming group has the same)
     MaxSig,     \* bound on the number of signings (ids 1..MaxSig)
     MaxSerial,  \* bound on the number of nonce pairs an address registers
     MaxDESet,   \* possible values of tss params.max_de_size
@@ -41,42 +49,51 @@ CONSTANTS
     PeriodSet,  \* possible values of tss params.signing_period (blocks)
     PenaltySet, \* possible values of bandtss params.inactive_penalty_duration (seconds = blocks: 1 s per block)
     KSet,       \* batch sizes tried by SubmitDEs
-    PreSet      \* numbers of oracle-originated signing creations tried inside an end-block
+    PreSet,     \* numbers of oracle-originated signing requests tried inside an end-block (before the tss end-blocker)
+    PostSet,    \* numbers of tunnel packets (TSS route) tried inside an end-block (after the tss end-blocker)
+    TransOn     \* BOOLEAN: a group transition may be started in this history
 
 Addr  == Member \cup Stranger
 Ids   == 1..MaxSig
 Token == Addr \X (1..MaxSerial)      \* <<address, registration serial>>
+Grp   == {1, 2}                      \* 1 = current group, 2 = incoming group of the transition
 
 VARIABLES
     h,        \* height of the block in progress
     params,   \* [t, maxDE, maxAtt, period, penalty]
-    q,        \* address -> sequence of serials: the DE queue (head first)
+    q,        \* address -> sequence of serials: the DE queue (head first); one queue per address, whatever the group
     nser,     \* address -> number of nonce pairs registered so far
-    tssAct,   \* member -> x/tss Member.IsActive
-    ownAct,   \* member -> x/bandtss Member.IsActive (the owner module's flag)
-    cool,     \* member -> blocks until MsgActivate is allowed again
+    tssAct,   \* group -> member -> x/tss Member.IsActive
+    ownAct,   \* group -> member -> x/bandtss Member.IsActive (the owner module's flag)
+    cool,     \* group -> member -> blocks until MsgActivate is allowed again
     count,    \* number of signings ever created
-    sig,      \* id -> [status, attempt, created]
+    sig,      \* id -> [status, attempt, created, grp]
     att,      \* id -> stored SigningAttempt record of the signing (NoAtt when none)
     tok,      \* id -> [a, asg]: latest assignment announced for the signing (member -> serial)
     exps,     \* SigningExpirations FIFO: sequence of <<id, attempt>>
     pend,     \* PendingProcessSignings: sequence of ids
-    mapped,   \* id -> the owner module still waits for the outcome (bandtss signing-id mapping)
+    mapped,   \* id -> the owner module still waits for the outcome (bandtss signing-id mapping / transition in WAITING_SIGN)
     nSucc,    \* id -> number of signing_success events so far
     nFail,    \* id -> number of signing_failed events so far
+    tr,       \* group transition: "none" | "pending" (incoming group about to become active) | "sign" (hand-over
+              \* message being signed by the current group) | "exec" (awaiting execution: requests also go to the
+              \* incoming group) | "dropped"
+    trSig,    \* id of the hand-over signing (0 = none)
     \* ---- description of the last step only (not part of the state identity) ----
     out,      \* "init" | "ok" | "rej"
-    pen,      \* members deactivated by the last step
-    ret,      \* assignments made by the last step: sequence of [id, a, S]
+    pen,      \* <<group, member>> pairs deactivated by the last step
+    ret,      \* assignments made by the last step: sequence of [id, a, g, S, post]
     \* ---- ghost ----
     usedBy,   \* token -> set of <<id, attempt>> the pair was assigned to, history-wide
     pchg      \* signing_period was changed at some point of this history
 
-core  == <<h, params, q, nser, tssAct, ownAct, cool, count, sig, att, tok, exps, pend, mapped, nSucc, nFail>>
-vars  == <<h, params, q, nser, tssAct, ownAct, cool, count, sig, att, tok, exps, pend, mapped, nSucc, nFail,
+core  == <<h, params, q, nser, tssAct, ownAct, cool, count, sig, att, tok, exps, pend, mapped, nSucc, nFail, tr, trSig>>
+vars  == <<h, params, q, nser, tssAct, ownAct, cool, count, sig, att, tok, exps, pend, mapped, nSucc, nFail, tr, trSig,
            out, pen, ret, usedBy, pchg>>
+\* the variables a step that creates attempts writes through Commit
+cvars == <<q, tok, usedBy, att, sig, exps, count, mapped, nFail, tr, trSig, ret>>
 
-NoSig == [status |-> "NONE", attempt |-> 0, created |-> 0]
+NoSig == [status |-> "NONE", attempt |-> 0, created |-> 0, grp |-> 0]
 NoAtt == [present |-> FALSE, a |-> 0, mem |-> {}, expH |-> 0, signed |-> {}]
 NoTok == [a |-> 0, asg |-> [m \in {} |-> 0]]
 
@@ -87,23 +104,28 @@ Hd(s) == IF s = <<>> THEN 0 ELSE Head(s)         \* total versions (0 is no seri
 Tl(s) == IF s = <<>> THEN <<>> ELSE Tail(s)
 Pos(x) == IF x > 0 THEN x ELSE 0
 
-\* GetAvailableMembers: tss-active members with a non-empty DE queue
+\* GetAvailableMembers of a group: its tss-active members with a non-empty DE queue
 Avail(qq, act) == {m \in Member : act[m] /\ qq[m] # <<>>}
 
 \* the sampler (property C09) is free: any priority order over the members; the committee is the
 \* first T available members in that order
 Prios == {f \in [Member -> 1..Cardinality(Member)] : \A x, y \in Member : x # y => f[x] # f[y]}
 Pick(av, pr) == {m \in av : Cardinality({x \in av : pr[x] < pr[m]}) < T}
-NoPick == [id \in Ids |-> {}]
+\* committees fixed from outside (trace validation): id -> [S, g]; S = {} : nothing observed for that id
+NoP == [S |-> {}, g |-> 0]
+NoPick == [id \in 1..(MaxSig + 2) |-> NoP]
+PAt(P, id) == IF id \in DOMAIN P THEN P[id] ELSE NoP
+
+AllOf(b) == [g \in Grp |-> [m \in Member |-> b]]
 
 Init ==
     /\ h = 2
     /\ params \in [t : TSet, maxDE : MaxDESet, maxAtt : MaxAttSet, period : PeriodSet, penalty : PenaltySet]
     /\ q = [a \in Addr |-> <<>>]
     /\ nser = [a \in Addr |-> 0]
-    /\ tssAct = [m \in Member |-> TRUE]
-    /\ ownAct = [m \in Member |-> TRUE]
-    /\ cool = [m \in Member |-> 0]
+    /\ tssAct = [g \in Grp |-> [m \in Member |-> g = 1]]
+    /\ ownAct = [g \in Grp |-> [m \in Member |-> g = 1]]
+    /\ cool = [g \in Grp |-> [m \in Member |-> 0]]
     /\ count = 0
     /\ sig = [id \in Ids |-> NoSig]
     /\ att = [id \in Ids |-> NoAtt]
@@ -112,6 +134,7 @@ Init ==
     /\ mapped = [id \in Ids |-> FALSE]
     /\ nSucc = [id \in Ids |-> 0]
     /\ nFail = [id \in Ids |-> 0]
+    /\ tr = "none" /\ trSig = 0
     /\ out = "init" /\ pen = {} /\ ret = <<>>
     /\ usedBy = [t \in Token |-> {}]
     /\ pchg = FALSE
@@ -129,60 +152,86 @@ SubmitDEs(a, k) ==
        THEN /\ q' = [q EXCEPT ![a] = @ \o [i \in 1..k |-> nser[a] + i]]
             /\ nser' = [nser EXCEPT ![a] = @ + k]
             /\ out' = "ok" /\ pen' = {} /\ ret' = <<>>
-            /\ UNCHANGED <<h, params, tssAct, ownAct, cool, count, sig, att, tok, exps, pend, mapped, nSucc, nFail, usedBy, pchg>>
+            /\ UNCHANGED <<h, params, tssAct, ownAct, cool, count, sig, att, tok, exps, pend, mapped, nSucc, nFail, tr, trSig, usedBy, pchg>>
        ELSE Rejected
 
 (* MsgResetDE: every queued pair of the sender is deleted *)
 ResetDE(a) ==
     /\ q' = [q EXCEPT ![a] = <<>>]
     /\ out' = "ok" /\ pen' = {} /\ ret' = <<>>
-    /\ UNCHANGED <<h, params, nser, tssAct, ownAct, cool, count, sig, att, tok, exps, pend, mapped, nSucc, nFail, usedBy, pchg>>
+    /\ UNCHANGED <<h, params, nser, tssAct, ownAct, cool, count, sig, att, tok, exps, pend, mapped, nSucc, nFail, tr, trSig, usedBy, pchg>>
 
 (***************************************************************************)
 (* The running state threaded through the steps that create attempts.      *)
 (***************************************************************************)
 Run0 == [q |-> q, tok |-> tok, used |-> usedBy, att |-> att, sig |-> sig, exps |-> exps, count |-> count,
-         mapped |-> mapped, nFail |-> nFail, ret |-> <<>>]
+         mapped |-> mapped, nFail |-> nFail, tr |-> tr, trSig |-> trSig, ret |-> <<>>]
 
-\* InitiateNewSigningRound: attempt a of signing id with committee S: each member's head pair is dequeued
-Assign(st, id, a, S) ==
+\* InitiateNewSigningRound: attempt a of signing id (group g) with committee S: each member's head pair is dequeued
+Assign(st, id, a, S, g, post) ==
     [st EXCEPT
         !.q    = [m \in Addr |-> IF m \in S THEN Tl(st.q[m]) ELSE st.q[m]],
         !.tok  = [st.tok EXCEPT ![id] = [a |-> a, asg |-> [m \in S |-> Hd(st.q[m])]]],
         !.used = [t \in Token |-> IF t[1] \in S /\ t[2] = Hd(st.q[t[1]]) THEN st.used[t] \cup {<<id, a>>} ELSE st.used[t]],
         !.att  = [st.att EXCEPT ![id] = [present |-> TRUE, a |-> a, mem |-> S, expH |-> h + params.period, signed |-> {}]],
         !.sig  = [st.sig EXCEPT ![id] = [status |-> "WAITING", attempt |-> a,
-                                         created |-> IF a = 1 THEN h ELSE st.sig[id].created]],
+                                         created |-> IF a = 1 THEN h ELSE st.sig[id].created, grp |-> g]],
         !.exps = Append(st.exps, <<id, a>>),
-        !.ret  = Append(st.ret, [id |-> id, a |-> a, S |-> S])]
+        !.ret  = Append(st.ret, [id |-> id, a |-> a, g |-> g, S |-> S, post |-> post])]
 
-\* RequestSigning: CreateSigning + first round; the owner module records the mapping
-Create(st, S) ==
+\* tss.RequestSigning: CreateSigning + first round; the owner module waits for the outcome
+Create(st, S, g, post) ==
     LET id == st.count + 1 IN
-    [Assign(st, id, 1, S) EXCEPT !.count = id, !.mapped = [st.mapped EXCEPT ![id] = TRUE]]
+    [Assign(st, id, 1, S, g, post) EXCEPT !.count = id, !.mapped = [st.mapped EXCEPT ![id] = TRUE]]
 
-\* HandleFailedSigning: status FALLEN (the attempt counter stays: the failed round was rolled back)
+\* HandleFailedSigning: status FALLEN (the attempt counter stays: the failed round was rolled back);
+\* OnSigningFailed: the mapping goes / the transition whose hand-over signing this is, is dropped
 Fall(st, id) ==
     [st EXCEPT !.sig = [st.sig EXCEPT ![id].status = "FALLEN"],
                !.nFail = [st.nFail EXCEPT ![id] = @ + 1],
-               !.mapped = [st.mapped EXCEPT ![id] = FALSE]]
+               !.mapped = [st.mapped EXCEPT ![id] = FALSE],
+               !.tr = IF id = st.trSig /\ st.tr = "sign" THEN "dropped" ELSE st.tr]
+
+(***************************************************************************)
+(* bandtss createSigningRequest on the running state, with the tss flags   *)
+(* `act` in force: the current group must provide a committee (otherwise   *)
+(* nothing happens: error); while the transition awaits execution the      *)
+(* incoming group is asked too, in a cache context: a failure there leaves *)
+(* nothing.  obs = FALSE: decided by availability, committees by pr or P;  *)
+(* obs = TRUE (trace, life-cycle facet): exactly what was observed in P.   *)
+(***************************************************************************)
+CreateReq(st, act, pr, P, obs, post) ==
+    LET id1 == st.count + 1
+        av1 == Avail(st.q, act[1])
+        do1 == IF obs THEN PAt(P, id1).S # {} /\ PAt(P, id1).g = 1 ELSE Cardinality(av1) >= T
+        S1  == IF PAt(P, id1).S # {} THEN PAt(P, id1).S ELSE Pick(av1, pr)
+        st1 == Create(st, S1, 1, post)
+        id2 == id1 + 1
+        av2 == Avail(st1.q, act[2])
+        do2 == st.tr = "exec" /\ (IF obs THEN PAt(P, id2).S # {} /\ PAt(P, id2).g = 2 ELSE Cardinality(av2) >= T)
+        S2  == IF PAt(P, id2).S # {} THEN PAt(P, id2).S ELSE Pick(av2, pr)
+    IN IF ~do1 THEN st ELSE IF do2 THEN Create(st1, S2, 2, post) ELSE st1
 
 Commit(st) ==
     /\ q' = st.q /\ tok' = st.tok /\ usedBy' = st.used /\ att' = st.att /\ sig' = st.sig
-    /\ exps' = st.exps /\ count' = st.count /\ mapped' = st.mapped /\ nFail' = st.nFail /\ ret' = st.ret
+    /\ exps' = st.exps /\ count' = st.count /\ mapped' = st.mapped /\ nFail' = st.nFail
+    /\ tr' = st.tr /\ trSig' = st.trSig /\ ret' = st.ret
 
 (***************************************************************************)
-(* MsgRequestSignature (bandtss, direct).  GetRandomMembers fails when     *)
-(* fewer than T members are available; otherwise any T of them.            *)
+(* A signing request inside a block (MsgRequestSignature, MsgTriggerTunnel)*)
+(* GetRandomMembers fails when fewer than T members of the current group   *)
+(* are available; otherwise any T of them.                                 *)
 (***************************************************************************)
-RequestGuard(S) == S \subseteq Avail(q, tssAct) /\ Cardinality(S) = T
-RequestEffect(S) ==
-    /\ count < MaxSig                                    \* model bound only
-    /\ Commit(Create(Run0, S))
+RequestRejGuard == Cardinality(Avail(q, tssAct[1])) < T
+RequestEffect(pr, P, obs) ==
+    /\ count + (IF tr = "exec" THEN 2 ELSE 1) <= MaxSig    \* model bound only
+    /\ Commit(CreateReq(Run0, tssAct, pr, P, obs, FALSE))
     /\ out' = "ok" /\ pen' = {}
     /\ UNCHANGED <<h, params, nser, tssAct, ownAct, cool, pend, nSucc, pchg>>
-RequestOK(S) == RequestGuard(S) /\ RequestEffect(S)
-RequestRejGuard == Cardinality(Avail(q, tssAct)) < T
+\* S: committee of the current group; pr only matters for the incoming group
+RequestOK(S, pr) ==
+    /\ S \subseteq Avail(q, tssAct[1]) /\ Cardinality(S) = T
+    /\ RequestEffect(pr, [NoPick EXCEPT ![count + 1] = [S |-> S, g |-> 1]], FALSE)
 RequestRej == RequestRejGuard /\ Rejected
 
 \* the signing was created, then a later message of the same transaction failed: nothing remains
@@ -203,43 +252,72 @@ SubmitSig(m, id, valid) ==
     THEN /\ att' = [att EXCEPT ![id].signed = @ \cup {m}]
          /\ pend' = IF att[id].signed \cup {m} = att[id].mem THEN Append(pend, id) ELSE pend
          /\ out' = "ok" /\ pen' = {} /\ ret' = <<>>
-         /\ UNCHANGED <<h, params, q, nser, tssAct, ownAct, cool, count, sig, tok, exps, mapped, nSucc, nFail, usedBy, pchg>>
+         /\ UNCHANGED <<h, params, q, nser, tssAct, ownAct, cool, count, sig, tok, exps, mapped, nSucc, nFail, tr, trSig, usedBy, pchg>>
     ELSE Rejected
 
 (***************************************************************************)
-(* MsgActivate (bandtss): a member that is inactive in the owner module    *)
-(* and whose penalty has elapsed; both flags are raised.                   *)
+(* MsgActivate (bandtss) for group g: a member that is inactive in the     *)
+(* owner module and whose penalty has elapsed; both flags are raised.  The *)
+(* incoming group has owner-module members only while it awaits execution. *)
 (***************************************************************************)
-Activate(a) ==
-    IF a \in Member /\ ~ownAct[a] /\ cool[a] = 0
-    THEN /\ ownAct' = [ownAct EXCEPT ![a] = TRUE]
-         /\ tssAct' = [tssAct EXCEPT ![a] = TRUE]
+Activate(a, g) ==
+    IF a \in Member /\ (g = 1 \/ tr = "exec") /\ ~ownAct[g][a] /\ cool[g][a] = 0
+    THEN /\ ownAct' = [ownAct EXCEPT ![g][a] = TRUE]
+         /\ tssAct' = [tssAct EXCEPT ![g][a] = TRUE]
          /\ out' = "ok" /\ pen' = {} /\ ret' = <<>>
-         /\ UNCHANGED <<h, params, q, nser, cool, count, sig, att, tok, exps, pend, mapped, nSucc, nFail, usedBy, pchg>>
+         /\ UNCHANGED <<h, params, q, nser, cool, count, sig, att, tok, exps, pend, mapped, nSucc, nFail, tr, trSig, usedBy, pchg>>
     ELSE Rejected
 
 (***************************************************************************)
-(* End of block h.                                                         *)
-(*  0. npre oracle requests with a TSS encoder resolve (oracle end-blocker *)
-(*     runs before the tss one): each tries to create a signing in a cache *)
-(*     context; a failure leaves no trace in this state.                   *)
-(*  1. every pending signing is aggregated: SUCCESS, OnSigningCompleted.   *)
-(*  2. HandleExpiredSignings: the FIFO is consumed while the head attempt  *)
-(*     has expH <= h.  Not all assigned signed -> time-out: OnSigningTime- *)
-(*     out deactivates the idle members (owner + tss flag), the signing    *)
-(*     joins the retry list.  Interim data of every consumed entry goes.   *)
-(*  3. each retry in its own cache context: attempt+1 <= maxAtt and >= T   *)
-(*     available -> new committee, fresh heads, new FIFO entry; otherwise  *)
-(*     the cache is dropped and the signing is FALLEN, OnSigningFailed.    *)
-(* pr: sampler freedom; P: committees fixed from outside (trace) or {}.    *)
+(* MsgTransitionGroup from the authority, and the key generation of the    *)
+(* incoming group reaching round 3 (environment): the tss end-blocker of   *)
+(* this block will activate the group and call OnGroupCreationCompleted.   *)
 (***************************************************************************)
-RECURSIVE PreFold(_, _, _, _)
-PreFold(n, st, pr, P) ==
-    IF n = 0 THEN st
-    ELSE LET av == Avail(st.q, tssAct)
-             id == st.count + 1
-             S  == IF P[id] # {} THEN P[id] ELSE Pick(av, pr)
-         IN PreFold(n - 1, IF Cardinality(av) >= T THEN Create(st, S) ELSE st, pr, P)
+Transition ==
+    IF TransOn /\ tr = "none"
+    THEN /\ tr' = "pending"
+         /\ out' = "ok" /\ pen' = {} /\ ret' = <<>>
+         /\ UNCHANGED <<h, params, q, nser, tssAct, ownAct, cool, count, sig, att, tok, exps, pend, mapped, nSucc, nFail, trSig, usedBy, pchg>>
+    ELSE Rejected
+
+(***************************************************************************)
+(* End of block h, in the order of the end-blockers:                       *)
+(*  0. oracle: npre resolved requests with a TSS encoder each call         *)
+(*     createSigningRequest in a cache context (a failure leaves nothing). *)
+(*  1. tss, pending groups: the incoming group of a "pending" transition   *)
+(*     becomes active; OnGroupCreationCompleted asks the CURRENT group to  *)
+(*     sign the hand-over message in a cache context: created ->           *)
+(*     WAITING_SIGN, failed -> the transition is dropped.                  *)
+(*  2. tss, HandleSigningEndBlock: every pending signing is aggregated:    *)
+(*     SUCCESS, OnSigningCompleted (hand-over signing: the members of the  *)
+(*     incoming group join the owner module, WAITING_EXECUTION).           *)
+(*  3. HandleExpiredSignings: the FIFO is consumed while the head attempt  *)
+(*     has expH <= h.  Not all assigned signed -> time-out: OnSigningTime- *)
+(*     out deactivates the idle members in the signing's group (owner +    *)
+(*     tss flag), the signing joins the retry list.  Interim data of every *)
+(*     consumed entry goes.                                                *)
+(*  4. each retry in its own cache context: attempt+1 <= maxAtt and >= T   *)
+(*     available in its group -> new committee, fresh heads, new FIFO      *)
+(*     entry; otherwise the cache is dropped and the signing is FALLEN,    *)
+(*     OnSigningFailed.                                                    *)
+(*  5. tunnel: npost TSS-route packets each call createSigningRequest in   *)
+(*     the packet's cache context (a failure drops the whole packet).      *)
+(* pr: sampler freedom; P: committees fixed from outside (trace);          *)
+(* obs / hand: creations exactly as observed (trace, life-cycle facet).    *)
+(***************************************************************************)
+RECURSIVE ReqFold(_, _, _, _, _, _, _)
+ReqFold(n, st, act, pr, P, obs, post) ==
+    IF n = 0 THEN st ELSE ReqFold(n - 1, CreateReq(st, act, pr, P, obs, post), act, pr, P, obs, post)
+
+\* OnGroupCreationCompleted
+HandOver(st, act, pr, P, obs, hand) ==
+    IF st.tr # "pending" THEN st
+    ELSE LET id == st.count + 1
+             av == Avail(st.q, act[1])
+             do == IF obs THEN hand ELSE Cardinality(av) >= T
+             S  == IF PAt(P, id).S # {} THEN PAt(P, id).S ELSE Pick(av, pr)
+         IN IF do THEN [Create(st, S, 1, FALSE) EXCEPT !.tr = "sign", !.trSig = id]
+            ELSE [st EXCEPT !.tr = "dropped"]
 
 RECURSIVE DueLen(_, _)
 DueLen(es, at) == IF es = <<>> \/ at[Head(es)[1]].expH > h THEN 0 ELSE 1 + DueLen(Tail(es), at)
@@ -248,47 +326,59 @@ RECURSIVE Retry(_, _, _, _, _)
 Retry(todo, st, act, pr, P) ==
     IF todo = <<>> THEN st
     ELSE LET id == Head(todo)[1]
+             g  == st.sig[id].grp
              a  == st.sig[id].attempt + 1
-             av == Avail(st.q, act)
+             av == Avail(st.q, act[g])
              ok == a <= params.maxAtt /\ Cardinality(av) >= T
-             S  == IF P[id] # {} THEN P[id] ELSE Pick(av, pr)
-         IN Retry(Tail(todo), IF ok THEN Assign(st, id, a, S) ELSE Fall(st, id), act, pr, P)
+             S  == IF PAt(P, id).S # {} THEN PAt(P, id).S ELSE Pick(av, pr)
+         IN Retry(Tail(todo), IF ok THEN Assign(st, id, a, S, g, TRUE) ELSE Fall(st, id), act, pr, P)
 
 TimedOut(e, at) == at[e[1]].signed # at[e[1]].mem
 
-EndBlockP(npre, pr, P) ==
-    /\ count + npre <= MaxSig                            \* model bound only
-    /\ LET st1   == PreFold(npre, Run0, pr, P)
+\* creations an end-block may need ids for (model bound only)
+Need(npre, npost) == (npre + npost) * (IF tr \in {"sign", "exec"} THEN 2 ELSE 1) + (IF tr = "pending" THEN 1 ELSE 0)
+
+EndBlockP(npre, npost, pr, P, obs, hand) ==
+    /\ count + Need(npre, npost) <= MaxSig               \* model bound only
+    /\ LET st0   == ReqFold(npre, Run0, tssAct, pr, P, obs, FALSE)
+           st1   == HandOver(st0, tssAct, pr, P, obs, hand)
            agg   == Range(pend)
            sigA  == [id \in Ids |-> IF id \in agg THEN [st1.sig[id] EXCEPT !.status = "SUCCESS"] ELSE st1.sig[id]]
            mapA  == [id \in Ids |-> st1.mapped[id] /\ id \notin agg]
+           exec  == st1.tr = "sign" /\ st1.trSig \in agg      \* the hand-over message is signed
+           trA   == IF exec THEN "exec" ELSE st1.tr
+           tssA  == IF exec THEN [tssAct EXCEPT ![2] = [m \in Member |-> TRUE]] ELSE tssAct
+           ownA  == IF exec THEN [ownAct EXCEPT ![2] = [m \in Member |-> TRUE]] ELSE ownAct
            nDue  == DueLen(st1.exps, st1.att)
            due   == SubSeq(st1.exps, 1, nDue)
            timed == SelectSeq(due, LAMBDA e : TimedOut(e, st1.att))
-           idle  == UNION {st1.att[e[1]].mem \ st1.att[e[1]].signed : e \in Range(timed)}
-           pens  == {m \in idle : ownAct[m]}
-           actT  == [m \in Member |-> tssAct[m] /\ m \notin pens]
+           idle  == UNION {{<<sigA[e[1]].grp, m>> : m \in st1.att[e[1]].mem \ st1.att[e[1]].signed} : e \in Range(timed)}
+           pens  == {x \in idle : ownA[x[1]][x[2]]}
+           actT  == [g \in Grp |-> [m \in Member |-> tssA[g][m] /\ <<g, m>> \notin pens]]
            dueId == {e[1] : e \in Range(due)}
-           st2   == [st1 EXCEPT !.sig = sigA, !.mapped = mapA,
+           st2   == [st1 EXCEPT !.sig = sigA, !.mapped = mapA, !.tr = trA,
                                 !.att = [id \in Ids |-> IF id \in dueId THEN NoAtt ELSE st1.att[id]],
                                 !.exps = SubSeq(st1.exps, nDue + 1, Len(st1.exps))]
            st3   == Retry(timed, st2, actT, pr, P)
-       IN /\ Commit(st3)
+           st4   == ReqFold(npost, st3, actT, pr, P, obs, TRUE)
+       IN /\ Commit(st4)
           /\ nSucc' = [id \in Ids |-> nSucc[id] + (IF id \in agg THEN 1 ELSE 0)]
-          /\ ownAct' = [m \in Member |-> ownAct[m] /\ m \notin pens]
+          /\ ownAct' = [g \in Grp |-> [m \in Member |-> ownA[g][m] /\ <<g, m>> \notin pens]]
           /\ tssAct' = actT
           /\ pen' = pens
-          /\ cool' = [m \in Member |-> IF m \in pens THEN Pos(params.penalty - 1) ELSE Pos(cool[m] - 1)]
+          /\ cool' = [g \in Grp |-> [m \in Member |-> IF <<g, m>> \in pens THEN Pos(params.penalty - 1) ELSE Pos(cool[g][m] - 1)]]
     /\ pend' = <<>>
     /\ h' = h + 1
     /\ out' = "ok"
     /\ UNCHANGED <<params, nser, pchg>>
 
 \* the sampler's choice matters only when some attempt is created in this end-block
-NoCreation(npre) == npre = 0 /\ \A e \in Range(exps) : att[e[1]].expH > h \/ att[e[1]].signed = att[e[1]].mem
-EndBlock(npre) ==
-    IF NoCreation(npre) THEN EndBlockP(npre, CHOOSE pr \in Prios : TRUE, NoPick)
-    ELSE \E pr \in Prios : EndBlockP(npre, pr, NoPick)
+NoCreation(npre, npost) ==
+    /\ npre = 0 /\ npost = 0 /\ tr # "pending"
+    /\ \A e \in Range(exps) : att[e[1]].expH > h \/ att[e[1]].signed = att[e[1]].mem
+EndBlock(npre, npost) ==
+    IF NoCreation(npre, npost) THEN EndBlockP(npre, npost, CHOOSE pr \in Prios : TRUE, NoPick, FALSE, FALSE)
+    ELSE \E pr \in Prios : EndBlockP(npre, npost, pr, NoPick, FALSE, FALSE)
 
 (***************************************************************************)
 (* Environment: governance changes signing_period (MsgUpdateParams).       *)
@@ -299,20 +389,21 @@ SetPeriod(p) ==
     /\ params' = [params EXCEPT !.period = p]
     /\ pchg' = TRUE
     /\ out' = "ok" /\ pen' = {} /\ ret' = <<>>
-    /\ UNCHANGED <<h, q, nser, tssAct, ownAct, cool, count, sig, att, tok, exps, pend, mapped, nSucc, nFail, usedBy>>
+    /\ UNCHANGED <<h, q, nser, tssAct, ownAct, cool, count, sig, att, tok, exps, pend, mapped, nSucc, nFail, tr, trSig, usedBy>>
 
 Next ==
     \/ \E a \in Addr, k \in KSet : SubmitDEs(a, k)
     \/ \E a \in Addr : ResetDE(a)
-    \/ \E S \in SUBSET Member : RequestOK(S)
+    \/ \E S \in SUBSET Member, pr \in Prios : RequestOK(S, pr)
     \/ RequestRej
     \/ RequestRollback
     \/ \E m \in Addr, id \in Ids, valid \in BOOLEAN : SubmitSig(m, id, valid)
-    \/ \E a \in Addr : Activate(a)
-    \/ \E n \in PreSet : EndBlock(n)
+    \/ \E a \in Addr, g \in Grp : Activate(a, g)
+    \/ Transition
+    \/ \E n \in PreSet, k \in PostSet : EndBlock(n, k)
     \/ \E p \in PeriodSet : SetPeriod(p)
 
-Spec == Init /\ [][Next]_vars /\ WF_vars(EndBlock(0))
+Spec == Init /\ [][Next]_vars /\ WF_vars(EndBlock(0, 0))
 
 -----------------------------------------------------------------------------
 (* Invariants *)
@@ -323,7 +414,9 @@ TypeOK ==
     /\ \A id \in Ids : /\ sig[id].status \in {"NONE", "WAITING", "SUCCESS", "FALLEN"}
                        /\ att[id].signed \subseteq att[id].mem /\ att[id].mem \subseteq Member
                        /\ (sig[id].status = "NONE") <=> (id > count)
+                       /\ (sig[id].status # "NONE") => sig[id].grp \in Grp
     /\ out \in {"init", "ok", "rej"}
+    /\ tr \in {"none", "pending", "sign", "exec", "dropped"}
 
 (* ---- C05 ---- *)
 \* every nonce pair is assigned to at most one signing attempt, history-wide
@@ -337,11 +430,13 @@ QueueBound == \A a \in Addr : Len(q[a]) <= params.maxDE
 TokSound == \A id \in Ids : \A m \in DOMAIN tok[id].asg :
                 /\ tok[id].asg[m] \in 1..nser[m]
                 /\ <<id, tok[id].a>> \in usedBy[<<m, tok[id].asg[m]>>]
+\* every signing that exists announced an assignment: no creation is left half-done
+TokCount == \A id \in Ids : (id <= count) <=> (tok[id].a > 0)
 \* the stored attempt record carries the announced assignment
 TokAtt == \A id \in Ids : att[id].present => (tok[id].a = att[id].a /\ DOMAIN tok[id].asg = att[id].mem)
 CommitteeSize == \A id \in Ids : att[id].present => Cardinality(att[id].mem) = T
 
-InvC05 == NoReuse /\ QueueFresh /\ QueueBound /\ TokSound /\ TokAtt /\ CommitteeSize
+InvC05 == NoReuse /\ QueueFresh /\ QueueBound /\ TokSound /\ TokCount /\ TokAtt /\ CommitteeSize
 
 (* ---- C10 ---- *)
 \* the FIFO holds exactly the stored attempt records, each the current attempt of its signing (this is
@@ -370,9 +465,17 @@ CallbackOnce ==
     \A id \in Ids : /\ nSucc[id] = (IF sig[id].status = "SUCCESS" THEN 1 ELSE 0)
                     /\ nFail[id] = (IF sig[id].status = "FALLEN" THEN 1 ELSE 0)
                     /\ mapped[id] <=> (sig[id].status = "WAITING")
-FlagsAgree == \A m \in Member : tssAct[m] = ownAct[m] /\ (cool[m] > 0 => ~ownAct[m])
+FlagsAgree == \A g \in Grp, m \in Member : tssAct[g][m] = ownAct[g][m] /\ (cool[g][m] > 0 => ~ownAct[g][m])
+\* the group transition follows its hand-over signing
+TransSound ==
+    /\ tr \in {"none", "pending"} => trSig = 0 /\ \A id \in Ids : sig[id].grp # 2
+    /\ tr = "sign" => trSig \in 1..count /\ sig[trSig].status = "WAITING" /\ sig[trSig].grp = 1
+    /\ tr = "exec" => trSig \in 1..count /\ sig[trSig].status = "SUCCESS"
+    /\ (tr = "dropped" /\ trSig # 0) => sig[trSig].status = "FALLEN"
+    /\ tr # "exec" => \A m \in Member : ~tssAct[2][m] /\ ~ownAct[2][m]
+    /\ \A id \in Ids : sig[id].grp = 2 => tr = "exec"
 
-InvC10 == ExpsSound /\ Lifecycle /\ PendSound /\ CallbackOnce /\ FlagsAgree
+InvC10 == ExpsSound /\ Lifecycle /\ PendSound /\ CallbackOnce /\ FlagsAgree /\ TransSound
 
 \* while signing_period is unchanged: no stored attempt is overdue at the start of a block (it was
 \* consumed at the end of block expH exactly), and the FIFO is sorted by expiry
@@ -394,6 +497,8 @@ EndStep == h' = h + 1
 Changed(id) == tok'[id] # tok[id]
 NewToks(m) == {tok'[id].asg[m] : id \in {i \in Ids : Changed(i) /\ m \in DOMAIN tok'[i].asg}}
 NewCnt(m) == Cardinality({i \in Ids : Changed(i) /\ m \in DOMAIN tok'[i].asg})
+\* the entry of ret' that announced the new assignment of id
+RetOf(id) == CHOOSE i \in 1..Len(ret') : ret'[i].id = id
 
 (* ---- C05 ---- *)
 \* an assignment takes the head pair(s) of the member's queue and removes them in the same step
@@ -413,20 +518,22 @@ QueueStepA ==
            /\ Len(q'[a]) <= params.maxDE
         \/ q'[a] = <<>> /\ NewCnt(a) = 0 /\ out' = "ok" /\ ~EndStep
         \/ NewCnt(a) > 0
-\* committee members are tss-active (after this step's deactivations) and had a queued pair
-\* (first attempts are drawn before the end-block's expiry phase, retries after it)
+\* committee members are tss-active in the signing's group when drawn (first attempts of the oracle /
+\* hand-over phase: before the end-block's expiry phase; retries and tunnel packets: after it) and had a pair
 EligibleA == \A id \in Ids : Changed(id) =>
-                \A m \in DOMAIN tok'[id].asg : /\ m \in Member /\ q[m] # <<>>
-                                                /\ (IF tok'[id].a = 1 THEN tssAct[m] ELSE tssAct'[m])
+                /\ \E i \in 1..Len(ret') : ret'[i].id = id
+                /\ LET r == ret'[RetOf(id)] IN
+                   \A m \in DOMAIN tok'[id].asg : /\ m \in Member /\ q[m] # <<>>
+                                                   /\ (IF r.a = 1 /\ ~r.post THEN tssAct[r.g][m] ELSE tssAct'[r.g][m])
 \* a rejected step (incl. a rolled-back creation) changes nothing
 RejectedA == out' = "rej" => UNCHANGED <<core, usedBy, pchg>>
 \* the ghost grows exactly by the announced assignments
 GhostA == \A t \in Token : usedBy'[t] = usedBy[t] \cup
               {<<id, tok'[id].a>> : id \in {i \in Ids : Changed(i) /\ t[1] \in DOMAIN tok'[i].asg /\ tok'[i].asg[t[1]] = t[2]}}
-\* a direct request is refused only when fewer than T members are available
-\* (RequestRej is the only rejecting step with that guard; stated on the action itself)
+\* signings come into existence only together with an announced first assignment
+CreationA == count' = count + Cardinality({id \in Ids : tok[id].a = 0 /\ tok'[id].a = 1})
 
-StepC05 == AssignFromHeadA /\ FifoA /\ QueueStepA /\ EligibleA /\ RejectedA /\ GhostA
+StepC05 == AssignFromHeadA /\ FifoA /\ QueueStepA /\ EligibleA /\ RejectedA /\ GhostA /\ CreationA
 
 (* ---- C10 ---- *)
 StatusA ==
@@ -438,7 +545,7 @@ AttemptA ==
     \A id \in Ids :
         /\ sig'[id].attempt >= sig[id].attempt /\ sig'[id].attempt <= sig[id].attempt + 1
         /\ (sig[id].status = "WAITING" /\ sig'[id].attempt # sig[id].attempt) => EndStep
-        /\ sig[id].status # "NONE" => sig'[id].created = sig[id].created
+        /\ sig[id].status # "NONE" => sig'[id].created = sig[id].created /\ sig'[id].grp = sig[id].grp
 \* an attempt record disappears or is replaced only at the end of a block >= its expiry height
 \* (never before the period has passed) ...
 NoEarlyTimeoutA ==
@@ -477,14 +584,20 @@ TimeoutA ==
                /\ sig[id].attempt = params.maxAtt) => sig'[id].status = "FALLEN"
         \* a consumed record whose members all signed belongs to a signing that is (now) SUCCESS
         /\ (Consumed(id) /\ att[id].signed = att[id].mem) => sig'[id].status = "SUCCESS" /\ ~att'[id].present
-\* exactly the assigned members that did not sign an attempt timing out now are penalised (once)
+\* exactly the assigned members that did not sign an attempt timing out now are penalised (once), in the
+\* group of the signing; the incoming group's flags come up when its hand-over message is signed
 PenaltyA ==
-    LET idleNow == {m \in Member : \E id \in Ids : /\ Consumed(id) /\ att[id].signed # att[id].mem
-                                                   /\ m \in att[id].mem \ att[id].signed}
-    IN /\ pen' = {m \in idleNow : ownAct[m]}
-       /\ \A m \in Member : /\ (ownAct[m] /\ ~ownAct'[m]) <=> m \in pen'
-                            /\ (tssAct[m] /\ ~tssAct'[m]) <=> (m \in pen' /\ tssAct[m])
-                            /\ (~ownAct[m] /\ ownAct'[m]) => (cool[m] = 0 /\ ~EndStep /\ tssAct'[m])
+    LET idleNow == {x \in Grp \X Member : \E id \in Ids : /\ Consumed(id) /\ att[id].signed # att[id].mem
+                                                        /\ sig[id].grp = x[1]
+                                                        /\ x[2] \in att[id].mem \ att[id].signed}
+        joins == tr # "exec" /\ tr' = "exec"
+    IN /\ pen' = {x \in idleNow : ownAct[x[1]][x[2]] \/ (joins /\ x[1] = 2)}
+       /\ \A g \in Grp, m \in Member :
+            /\ (ownAct[g][m] /\ ~ownAct'[g][m]) <=> (<<g, m>> \in pen' /\ ownAct[g][m])
+            /\ (tssAct[g][m] /\ ~tssAct'[g][m]) <=> (<<g, m>> \in pen' /\ tssAct[g][m])
+            /\ (~ownAct[g][m] /\ ownAct'[g][m]) =>
+                   \/ (cool[g][m] = 0 /\ ~EndStep /\ tssAct'[g][m])
+                   \/ (joins /\ g = 2 /\ EndStep)
 \* signatures are recorded one at a time, only for assigned members, only while WAITING
 SignedA ==
     \A id \in Ids : (att[id].present /\ att'[id].present /\ att'[id].a = att[id].a) =>
@@ -495,8 +608,19 @@ SignedA ==
 CallbackA ==
     \A id \in Ids : /\ nSucc'[id] = nSucc[id] + (IF sig[id].status = "WAITING" /\ sig'[id].status = "SUCCESS" THEN 1 ELSE 0)
                     /\ nFail'[id] = nFail[id] + (IF sig[id].status = "WAITING" /\ sig'[id].status = "FALLEN" THEN 1 ELSE 0)
+\* the group transition moves only with its hand-over signing
+TransitionA ==
+    /\ (tr = "sign" /\ tr' = "exec") <=> (tr = "sign" /\ sig[trSig].status = "WAITING" /\ sig'[trSig].status = "SUCCESS")
+    /\ (tr = "sign" /\ tr' = "dropped") <=> (tr = "sign" /\ sig[trSig].status = "WAITING" /\ sig'[trSig].status = "FALLEN")
+    /\ (tr = "pending" /\ tr' # "pending") =>
+            /\ EndStep
+            /\ \/ tr' = "dropped" /\ trSig' = 0
+               \/ tr' = "sign" /\ sig[trSig'].status = "NONE" /\ sig'[trSig'].status = "WAITING" /\ sig'[trSig'].grp = 1
+    /\ tr \in {"exec", "dropped"} => tr' = tr
+    /\ tr = "none" => tr' \in {"none", "pending"}
+    /\ tr = "sign" => tr' \in {"sign", "exec", "dropped"}
 
-StepC10 == StatusA /\ AttemptA /\ NoEarlyTimeoutA /\ NewAttemptA /\ SuccessA /\ TimeoutA /\ PenaltyA /\ SignedA /\ CallbackA
+StepC10 == StatusA /\ AttemptA /\ NoEarlyTimeoutA /\ NewAttemptA /\ SuccessA /\ TimeoutA /\ PenaltyA /\ SignedA /\ CallbackA /\ TransitionA
 
 AssignFromHead == [][AssignFromHeadA]_vars
 Fifo == [][FifoA]_vars
@@ -504,6 +628,7 @@ QueueStep == [][QueueStepA]_vars
 Eligible == [][EligibleA]_vars
 RejectedNoChange == [][RejectedA]_vars
 GhostExact == [][GhostA]_vars
+CreationExact == [][CreationA]_vars
 Status == [][StatusA]_vars
 Attempt == [][AttemptA]_vars
 NoEarlyTimeout == [][NoEarlyTimeoutA]_vars
@@ -514,31 +639,36 @@ Timeout == [][TimeoutA]_vars
 Penalty == [][PenaltyA]_vars
 Signed == [][SignedA]_vars
 Callback == [][CallbackA]_vars
+TransitionStep == [][TransitionA]_vars
 
 (***************************************************************************)
 (* The DE part of a step, taken alone: given the assignments `rets` the    *)
-(* step made (in order) and the tss flags in force when it made them       *)
-(* (first attempts: before the expiry phase; retries: after it),           *)
-(* the effect on queues / announced pairs / ghost.  Every step of the      *)
+(* step made (in order; each with its group and whether it was made before *)
+(* the expiry phase - first attempts of requests, oracle results, the      *)
+(* hand-over message - or after it - retries, tunnel packets) and the tss  *)
+(* flags in force before / after that phase, the effect on queues,         *)
+(* announced pairs, the ghost and the signing counter.  Every step of the  *)
 (* specification satisfies it (DEPartOK) - this is what the C05 trace      *)
-(* check uses when the life-cycle decisions (which signings are retried    *)
-(* and when) are assumed as observed.                                      *)
+(* check uses when the life-cycle decisions (which signings are created,   *)
+(* retried, and when) are assumed as observed.                             *)
 (***************************************************************************)
 RECURSIVE DEFold(_, _, _, _)
 DEFold(rets, st, actPre, actPost) ==
     IF rets = <<>> THEN st
     ELSE LET r == Head(rets)
              S == r.S
-             act == IF r.a = 1 THEN actPre ELSE actPost
+             act == IF r.a = 1 /\ ~r.post THEN actPre[r.g] ELSE actPost[r.g]
          IN DEFold(Tail(rets),
                    [q    |-> [m \in Addr |-> IF m \in S THEN Tl(st.q[m]) ELSE st.q[m]],
                     tok  |-> [st.tok EXCEPT ![r.id] = [a |-> r.a, asg |-> [m \in S |-> Hd(st.q[m])]]],
                     used |-> [t \in Token |-> IF t[1] \in S /\ t[2] = Hd(st.q[t[1]]) THEN st.used[t] \cup {<<r.id, r.a>>} ELSE st.used[t]],
-                    ok   |-> st.ok /\ S \subseteq Avail(st.q, act) /\ Cardinality(S) = T],
+                    cnt  |-> IF r.a = 1 THEN st.cnt + 1 ELSE st.cnt,
+                    ok   |-> /\ st.ok /\ r.g \in Grp /\ S \subseteq Avail(st.q, act) /\ Cardinality(S) = T
+                             /\ (r.a = 1 => r.id = st.cnt + 1) /\ (r.a > 1 => r.id <= st.cnt)],
                    actPre, actPost)
 DEPart(rets, actPre, actPost) ==
-    LET f == DEFold(rets, [q |-> q, tok |-> tok, used |-> usedBy, ok |-> TRUE], actPre, actPost)
-    IN f.ok /\ q' = f.q /\ tok' = f.tok /\ usedBy' = f.used
+    LET f == DEFold(rets, [q |-> q, tok |-> tok, used |-> usedBy, cnt |-> count, ok |-> TRUE], actPre, actPost)
+    IN f.ok /\ q' = f.q /\ tok' = f.tok /\ usedBy' = f.used /\ count' = f.cnt
 DEPartA == (ret' # <<>> \/ EndStep) => DEPart(ret', tssAct, tssAct')
 DEPartOK == [][DEPartA]_vars
 
